@@ -209,6 +209,7 @@ package peer
 //@   assertcall [noping] Ping :: peer.proxy == ""
 //@   ensures  [setbound]  !typeis_[protocol.Have](m) && old(peer.Info) == nil ==> Ghost_set <= 1<<20
 //@   ensures  [havebound] typeis_[protocol.Have](m) && old(peer.Info) == nil ==> Ghost_set <= 1<<20
+//@   ensures  [setrange]  old(peer.Info) != nil ==> Ghost_set == 0 || Ghost_set < old(NP(peer))
 //@   splitreturn
 //@   waive    pre:maybeRequest.below :: that every queued block number stays below the block count across requests.del is not carried by del's contract (it would need 'every remaining element is an old element'); it matters for the conformance of later Requests (C11), not for safety
 //@   waive    pre:maybeRequest.rbits :: in the Piece arm, after Pieces.AddData: AddData's contract frames the whole byte heap (heap:A:uint8), which also holds the request queue's membership bitmap, so its bits are lost to the proof there (AddData writes only piece buffers and piece bitmaps: not expressed)
